@@ -705,12 +705,14 @@ def _run_fd_sub(rec, sub, rng, n=20):
                         "fd_rho_worst": stats["rho"].worst, "fd_guard_pass_fraction": frac})
 
 
-def _cut_masks(mode, q, rc):
-    """Rule read from the code: SEP cuts per spin channel on the channel's own density variable, NPOL/POL on the sum.
-    q: (nspin, N) the density variable the class tests (X0T[:,0] for MappedXC, rho_tuple[0] for MappedXC2)."""
+def _cut_masks(mode, q, rc, cls="xc2"):
+    """SEP cuts per spin channel on the channel's own density variable, NPOL/POL on the TOTAL density.
+    q: (nspin, N) the density variable the class tests: X0T[:,0] = nspin * rho_s for MappedXC (total = mean over spin),
+    rho_tuple[0] = rho_s for MappedXC2 (total = sum over spin)."""
     if mode == "SEP":
         return q < rc
-    return np.broadcast_to(q.sum(0) < rc, q.shape)
+    tot = q.mean(0) if cls == "xc1" else q.sum(0)
+    return np.broadcast_to(tot < rc, q.shape)
 
 
 def _run_cut(rec, sub, mdl, rng, fd_with_cut=True):
@@ -725,13 +727,13 @@ def _run_cut(rec, sub, mdl, rng, fd_with_cut=True):
         ratio[:, -4:] = np.exp(rng.uniform(np.log(1e-3), np.log(10.0), size=(nspin, 4))) / rc  # ordinary densities
         lr = np.log(ratio)
         ratio = np.where(np.abs(lr) < 0.05, np.exp(np.sign(lr + 1e-30) * 0.05) , ratio)
-        tot = ratio.sum(0)
+        tot = ratio.sum(0) if cls == "xc2" else ratio.mean(0)
         ratio = np.where(np.abs(np.log(tot)) < 0.05, ratio * 1.2, ratio)
         q = rc * ratio
         rho = q / nspin if cls == "xc1" else q  # MappedXC tests X0T[:,0] = nspin * rho_s, MappedXC2 tests rho_tuple[0]
         rd, X, rt = _build_inputs(mdl, rng, n, nspin, rho=rho)
         qq = X[:, 0] if cls == "xc1" else rt[0]
-        below = _cut_masks(mode, qq, rc)
+        below = _cut_masks(mode, qq, rc, cls)
         allb = np.all(below, axis=0)
         alla = ~np.any(below, axis=0)
         rec.tag("rhocut", rc)
